@@ -1,0 +1,24 @@
+//! Verification hooks (`--cfg folo_verif` only): never compiled into normal builds.
+
+use std::sync::atomic::{AtomicUsize, Ordering};
+
+pub use crate::verif_sync::{AtomicOp, Hooks, install};
+
+/// Called at the start of every `release_event` with the address and size of the event.
+pub type ReleaseHook = fn(addr: usize, size: usize);
+
+static RELEASE_HOOK: AtomicUsize = AtomicUsize::new(0);
+
+/// Installs (or with `None` removes) the release notification callback.
+pub fn install_release_hook(hook: Option<ReleaseHook>) {
+    RELEASE_HOOK.store(hook.map_or(0, |h| h as usize), Ordering::SeqCst);
+}
+
+pub(crate) fn notify_release<E>(event: *const E) {
+    let raw = RELEASE_HOOK.load(Ordering::Relaxed);
+    if raw != 0 {
+        // SAFETY: Only ever set from a `ReleaseHook` function pointer.
+        let hook = unsafe { std::mem::transmute::<usize, ReleaseHook>(raw) };
+        hook(event as usize, size_of::<E>());
+    }
+}
